@@ -27,9 +27,9 @@ def shards(tier):
         for C in range(1, mx + 1):
             for shape in ("scalar", "flat"):
                 out.append(dict(part="num", kind="trough", R=V, C=C, shape=shape))
-    out.append(dict(part="size", kind="plate"))
-    out.append(dict(part="size", kind="trough"))
-    out.append(dict(part="names"))
+    out.append(dict(part="size", kind="plate", concrete=True))
+    out.append(dict(part="size", kind="trough", concrete=True))
+    out.append(dict(part="names", concrete=True))
     return out
 
 
